@@ -71,6 +71,23 @@ def check(ctx):
                 ctx.ob("SIB.optimizer.flat-keys", c, f"{rel}::optimize: {unparse(c)[:80]} receives flattened keys", ok, "" if ok else "computing several collections together passes a nested list of keys: set(keys) raises TypeError (or the nested lists are taken for keys and everything else is culled)")
     ctx.count("optimizer_key_uses", n_k)
     ctx.floor("optimizer_key_uses", 7)
+    # ---------------- substitution is simultaneous: a node that REPLACES a reference is not itself rewritten with the same mapping
+    ts_ = model.module("dask/_task_spec.py")
+    for qn in ("TaskRef.substitute", "Alias.substitute"):
+        sf_ = ts_.func(qn)
+        inner = [c for c in ast.walk(sf_) if isinstance(c, ast.Call) and isinstance(c.func, ast.Attribute) and c.func.attr == "substitute" and isinstance(c.func.value, ast.Name) and c.func.value.id == "val"]
+        ok = len(inner) == 1 and inner[0].args and eqv(inner[0].args[0], "{}")
+        ctx.ob("ALG.substitute.simultaneous", sf_, f"{qn}: a GraphNode replacement is only re-keyed (val.substitute({{}}, key=...))", ok, "" if ok else "the replacement is rewritten again with the same mapping: {'a': <inc(b)>, 'b': 'b2'} turns add(a, b) into add(inc(b2), b2) instead of add(inc(b), b2)")
+    # ---------------- whoever finds a dependency must be able to rewrite it: subs descends where keys_in_tasks descends
+    kit_ = model.module("dask/core.py").func("keys_in_tasks")
+    subs_ = model.module("dask/core.py").func("subs")
+    kinds = sorted({unparse(n.test).split(" is ")[1] for n in ast.walk(kit_) if isinstance(n, ast.If) and unparse(n.test).startswith("typ is ") and unparse(n.test).split(" is ")[1] in ("list", "dict", "set", "frozenset")})
+    ctx.count("extractor_container_kinds", len(kinds))
+    ctx.floor("extractor_container_kinds", 2, "list and dict")
+    stxt = unparse(subs_)
+    for kd in kinds:
+        ok = f"type_task is {kd}" in stxt and f"type_arg is {kd}" in stxt
+        ctx.ob("SIB.subs-extract", subs_, f"subs descends into a {kd} (as the whole value and as an argument), like keys_in_tasks", ok, "" if ok else f"keys_in_tasks reports keys inside a {kd} as dependencies but subs leaves them: fuse/inline remove the dependency's key and the reference survives as a literal")
 
 
 def _cull(ctx, f, style):
